@@ -17,6 +17,17 @@ function holds under every interleaving with any number of parties (first part).
 The second part states the property on the explicit model of several parties interleaving on ONE
 abstract file system (`Model/Parties.lean`): `runSched s0 sched` executes, for each index in the
 schedule, the next call of that party on the shared file system as it is at that moment.
+
+Audit notes.  A schedule is an arbitrary `List Nat`: any order, any repetition, unfair ones, indices of parties
+that have finished or do not exist (such a step does nothing).  The parties are an arbitrary list.  The exactly-once
+theorems conclude at QUIESCENCE only (`hq`: every party has finished): a schedule that starves a party satisfies no
+hypothesis `hq` and nothing is said about it, nor about intermediate states (one party killed at any point: C02).
+The steps are whole system calls answered by `predict` on the shared state - no fault is injected inside a concurrent
+run.  `Hiso` is a hypothesis on (initial state, schedule), decidable by running the schedule; it excludes exactly the
+schedules in which a party removes or replaces a name another party has created and not yet committed or rolled back
+- the listings behind F13 / F14; races for the ORIGINAL name of a message between any number of parties are inside it.
+`C17_never_touches_foreign` and `C17_parties_never_touch_foreign` speak of NAMES (the last component): the directory
+handle of the `unlinkat` / `renameat` is not constrained by them.
 -/
 
 namespace Mdsort.Props
@@ -50,6 +61,20 @@ theorem C17_copy_loser_reports_error (env : PEnv) (mh : Match) (st : ExecSt) (or
     (hunl : ∀ i d, ∃ e, orc i (.unlinkat d st.ms.name) = .err e) :
     (runOracle orc (execOne env mh st) 0 []).1.2 = true :=
   Proofs.lost_race_is_error_all env mh st orc hty hren hunl
+
+open Proofs.Parties.W in
+/-- Non-vacuity of `C17_loser_reports_error` and `C17_copy_loser_reports_error`: a file system on which every `renameat`
+and every `unlinkat` finds its source gone (`ENOENT`) and every other call succeeds; the `move` of the message `a` (one
+`renameat`, lost) and the `label` of it (copy written, `unlinkat` of the original lost) both end with error = true. -/
+example :
+    let orc : Nat → Call → Res := fun _ c => match c with
+      | .renameat .. => .err "ENOENT" | .unlinkat .. => .err "ENOENT" | _ => .ok 9
+    (runOracle orc (execOne (env 2) moveAct (stOf (ofString "a") msg)) 0 []).1.2 = true ∧
+    (runOracle orc (execOne (env 1) labelAct (stOf (ofString "a") labelled)) 0 []).1.2 = true ∧
+    ((runOracle orc (execOne (env 2) moveAct (stOf (ofString "a") msg)) 0 []).2.filter fun x => x.1.isRename).length = 1 :=
+  ⟨C17_loser_reports_error (env 2) moveAct (stOf (ofString "a") msg) _ (.inl rfl) (fun _ _ _ _ _ => rfl),
+   C17_copy_loser_reports_error (env 1) labelAct (stOf (ofString "a") labelled) _ (.inr (.inr (.inr (.inl rfl))))
+     (fun _ _ _ _ _ => ⟨_, rfl⟩) (fun _ _ => ⟨_, rfl⟩), by decide +kernel⟩
 
 /-! ## several parties on one file system, all schedules -/
 
